@@ -2601,12 +2601,23 @@ where
             }
         }
 
-        // Level 3 (topology)
-        if let Err(e) = self.is_valid() {
-            violations.push(InvariantViolation {
-                kind: InvariantKind::Topology,
-                error: e.into(),
-            });
+        // Level 3 (topology), including the completion-time vertex-link check that
+        // `validate()` runs after `is_valid()` for `TopologyGuarantee::PLManifold`.
+        match self.is_valid() {
+            Ok(()) => {
+                if let Err(e) = self.validate_at_completion() {
+                    violations.push(InvariantViolation {
+                        kind: InvariantKind::Topology,
+                        error: e.into(),
+                    });
+                }
+            }
+            Err(e) => {
+                violations.push(InvariantViolation {
+                    kind: InvariantKind::Topology,
+                    error: e.into(),
+                });
+            }
         }
 
         if violations.is_empty() {
